@@ -3281,3 +3281,7 @@ package connect
 //@   requires deref(hc) != nil && deref(hc).request != nil && deref(hc).request.Body != nil
 //@   assigns everything
 //@   ensures old(deref(retErr)) != nil ==> deref(retErr) == old(deref(retErr))   // label: closing-the-request-body-never-replaces-the-handler's-error
+//@ func withGzip$2() res
+//@   tags C08
+//@   assigns everything
+//@   ensures res != nil   // label: the-gzip-pool-makes-a-compressor
